@@ -499,11 +499,24 @@ def parse_z_list(out):
 
 def model_check(ctx, tag, pairs, chunk=120):
     bad = []
+    want = ctx.extra.get("gen_fingerprint")
     for ci in range(0, len(pairs), chunk):
         part = pairs[ci:ci + chunk]
         txt = CASES_HEADER + "Definition cases : list xcase :=\n" + \
-            clist([ccase(c, o) for c, o in part], ";\n ") + ".\nEval vm_compute in (failing cases).\n"
-        ok, out = ctx.coq_eval(f"c20_{tag}_{ci}", txt)
+            clist([ccase(c, o) for c, o in part], ";\n ") + \
+            ".\nEval vm_compute in (failing cases).\nEval vm_compute in gen_fingerprint.\n"
+        for attempt in range(3):
+            ok, out = ctx.coq_eval(f"c20_{tag}_{ci}", txt)
+            m = re.search(r'=\s*"([0-9a-f]{40})"', out)
+            if want is None or (m and m.group(1) == want) or attempt == 2:
+                break
+            # the model was rebuilt from another repository copy by a concurrent run: rebuild ours, try again
+            ctx.log("cases evaluated against a GenStyle.vo of another repository copy: rebuilding")
+            snap = (list(ctx.theorems), ctx.obligations, ctx.discharged, list(ctx.broken), dict(ctx.assumptions),
+                    list(ctx.checker_cmds))
+            ctx.regen(["GenStyle"])
+            ctx.build_props()
+            (ctx.theorems, ctx.obligations, ctx.discharged, ctx.broken, ctx.assumptions, ctx.checker_cmds) = snap
         res = parse_z_list(out) if ok else None
         if res is None:
             ctx.add_broken("broken-correspondence", f"c20_{tag}_{ci}", "model evaluation failed:\n" + out[-1500:])
@@ -1123,6 +1136,40 @@ def oracle_ctor(ctx, classes, per_class):
                                   {"kind": "ctor", "cls": cls, "p": list(p), "v": v, "mode": mode})
 
 
+# ------------------------------------------------------------------ Gen/GenStyle.v is shared with concurrent runs
+def expected_fingerprint():
+    m = re.search(r'gen_fingerprint : string := "([0-9a-f]+)"', gen_style.generate(REPO))
+    return m.group(1)
+
+
+def compiled_fingerprint(ctx):
+    ok, out = ctx.coq_eval("c20_fp", "From Coq Require Import String.\nFrom MV Require Import Gen.GenStyle.\n"
+                                     "Eval vm_compute in gen_fingerprint.\n")
+    m = re.search(r'=\s*"([0-9a-f]+)"', out)
+    return m.group(1) if ok and m else None
+
+
+def regen_and_build(ctx):
+    """regen + build; if another run (on another copy of the repository) rewrote Gen/GenStyle.v in between,
+    the compiled fingerprint differs from ours: do it again"""
+    ok = built = False
+    for attempt in range(4):
+        snap = (list(ctx.theorems), ctx.obligations, ctx.discharged, list(ctx.broken), dict(ctx.assumptions),
+                list(ctx.checker_cmds), list(ctx.notes))
+        ok = ctx.regen(["GenStyle"])
+        built = ctx.build_props() and ok
+        if not ok:
+            return ok, built
+        want = expected_fingerprint()
+        if compiled_fingerprint(ctx) == want or attempt == 3:
+            ctx.extra["gen_fingerprint"] = want
+            return ok, built
+        ctx.log("Gen/GenStyle.vo was rebuilt by a concurrent run on another repository copy: regenerating")
+        (ctx.theorems, ctx.obligations, ctx.discharged, ctx.broken, ctx.assumptions, ctx.checker_cmds,
+         ctx.notes) = snap
+    return ok, built
+
+
 # ------------------------------------------------------------------ main
 def forwarding_obligation(ctx):
     """GenStyle.ctor_style: every public constructor hands `style` to BaseGeo.__init__'s style parameter"""
@@ -1153,8 +1200,7 @@ def run(ctx):
         "coqchk (thorough tier) re-checks Proofs/StyleGen.vo and the model definitions only; the reflexive "
         "schema-wide theorems (vm_compute) are checked by coqc alone",
     ]
-    ok = ctx.regen(["GenStyle"])
-    built = ctx.build_props() and ok
+    ok, built = regen_and_build(ctx)
     if ok:
         run_guarded(ctx, lambda: forwarding_obligation(ctx), "C20 forwarding table")
     if ctx.tier == "thorough" and built:
